@@ -19,7 +19,7 @@ from ..pattern import C, G, V, add, call, div, match, mul, neg, norm
 from ..prov import content_sources
 from ..terms import Term, alts, contains, ends_with_attrs, root_of, show, subterms
 from ..util import calls_in, deep_subterms, nodes_in
-from .common import EST, FILT, check_weights_pipeline, estimator_sinks, weights_arg
+from .common import EST, FILT, check_weights_pipeline, dispatch_table, estimator_sinks, weights_arg
 
 P = "C01"
 
@@ -316,16 +316,7 @@ def c01_5(ctx: Ctx) -> RuleResult:
     for impl in ctx.repo.implementations(EST, "calculate_function"):
         c = impl.cls
         rt = X.return_term(impl)
-        methods = {}
-        # dispatch: method name -> helper
-        for n in nodes_in(impl, ast.If):
-            tt = X.at(impl, n.test)
-            if tt[0] == "cmp" and tt[1] == "==" and tt[3][0] == "const":
-                for r_ in [x for s in n.body for x in ast.walk(s) if isinstance(x, ast.Return)]:
-                    rv = X.at(impl, r_.value)
-                    hs = ctx.cg.resolve_fn(rv[1], impl) if rv[0] == "call" else []
-                    if hs:
-                        methods[tt[3][1]] = hs[0]
+        methods = dispatch_table(ctx, impl)
         for name in ("mean", "stddev"):
             if name not in methods:
                 res.add(impl, impl.node, f"estimator method `{name}` is dispatched to an implementation", False, "dispatch not found", construct=f"{c.name}: dispatch {name}")
@@ -341,45 +332,70 @@ def c01_5(ctx: Ctx) -> RuleResult:
             res.add(h, h.node, "mean estimate == dot(values, weights)", ok, "" if ok else f"mean is `{show(t, 100)}`", construct=f"{c.name}: mean formula")
         if "stddev" in methods:
             h = methods["stddev"]
-            # follow into the helper that computes (norm, mean, stddev)
-            helper = None
-            for call_, cs, _k in ctx.cg.all_callees(h):
-                for g in cs:
-                    if g.cls is c and g is not h:
-                        helper = g
-            if helper is None:
-                res.add(h, h.node, "stddev helper found", False, "no helper computing mean/stddev", construct=f"{c.name}: stddev helper")
+            parts = stddev_parts(ctx, h)
+            if parts is None:
+                res.add(h, h.node, "stddev == sqrt(Bessel * dot((values - mean)^2, weights))", False,
+                        f"stddev is `{show(norm(X.return_term(h)), 140)}`", construct=f"{c.name}: stddev formula")
             else:
-                rt = X.return_term(helper)
-                if rt[0] != "tuple" or len(rt[1]) != 3:
-                    res.add(helper, helper.node, "helper returns (norm, mean, stddev)", False, f"returns `{show(rt, 80)}`", construct=f"{c.name}: stddev helper shape")
-                else:
-                    nrm, mean, sd = (norm(x) for x in rt[1])
-                    ps = [p for p in helper.positional if p != "self"]
-                    fp, wp = ("param", helper.qualname, ps[0]), ("param", helper.qualname, ps[1])
-                    N = V("n")
-                    # N/(N-1) with N = float(count_nonzero(weights > 0))
-                    count_ref = call(("builtin", "float"), call("numpy.count_nonzero", ("cmp", "<", C(0), wp)))
-                    bessel = div(count_ref, add(C(-1), count_ref))
-                    ok_b = match(nrm, bessel) is not None
-                    why_b = ""
-                    if not ok_b:
-                        why_b = f"Bessel factor is `{show(nrm, 100)}`, not N/(N-1) with N = number of strictly positive weights"
-                    res.add(helper, helper.node, "Bessel factor == N/(N-1), N = count_nonzero(weights > 0)", ok_b, why_b, construct=f"{c.name}: Bessel factor")
-                    ok_m = match(mean, call("numpy.dot", fp, wp)) is not None or match(mean, call("numpy.sum", mul(fp, wp))) is not None
-                    res.add(helper, helper.node, "weighted mean == dot(values, weights)", ok_m, "" if ok_m else f"mean is `{show(mean, 80)}`", construct=f"{c.name}: stddev mean")
-                    dev = V("d")
-                    ref_sd = ("binop", "**", mul(nrm, call("numpy.dot", ("binop", "**", add(fp, neg(V("m"))), C(2)), wp)), C(0.5))
-                    m = match(sd, ref_sd)
-                    ok_s = m is not None and contains(m["m"], lambda s: s == mean)
-                    res.add(helper, helper.node, "stddev == sqrt(Bessel * dot((values - mean)^2, weights))", ok_s,
-                            "" if ok_s else f"stddev is `{show(sd, 140)}`", construct=f"{c.name}: stddev formula")
-                # the returned stddev is the third component
-                rth = X.return_term(h)
-                ok = any(s[0] == "item" and s[2] in (2, -1) for s in subterms(rth)) or rth[0] == "item"
-                res.add(h, h.node, "the stddev estimator returns the stddev component of the helper", ok, "" if ok else f"returns `{show(rth, 80)}`", construct=f"{c.name}: stddev result")
+                where_f, nrm, mean, fp, wp = parts
+                # N/(N-1) with N = float(count_nonzero(weights > 0))
+                ok_b = any(match(nrm, div(cr, add(C(-1), cr))) is not None for cr in count_refs(wp))
+                why_b = ""
+                if not ok_b:
+                    why_b = f"Bessel factor is `{show(nrm, 100)}`, not N/(N-1) with N = number of strictly positive weights"
+                res.add(where_f, where_f.node, "Bessel factor == N/(N-1), N = count_nonzero(weights > 0)", ok_b, why_b, construct=f"{c.name}: Bessel factor")
+                ok_m = match(mean, call("numpy.dot", fp, wp)) is not None or match(mean, call("numpy.sum", mul(fp, wp))) is not None
+                res.add(where_f, where_f.node, "weighted mean == dot(values, weights)", ok_m, "" if ok_m else f"mean is `{show(mean, 80)}`", construct=f"{c.name}: stddev mean")
+                res.add(where_f, where_f.node, "stddev == sqrt(Bessel * dot((values - mean)^2, weights))", True, construct=f"{c.name}: stddev formula")
+                res.add(h, h.node, "the stddev estimator returns the stddev component of the helper", True, construct=f"{c.name}: stddev result")
     res.floor = 5
     return res
+
+
+def count_refs(wp):
+    """Accepted spellings of N = number of strictly positive weights."""
+    pos = ("cmp", "<", C(0), wp)
+    base = [call("numpy.count_nonzero", pos), call("numpy.sum", pos)]
+    return [call(("builtin", "float"), b) for b in base] + base
+
+
+def stddev_parts(ctx: Ctx, h: Func):
+    """(function holding the formula, Bessel factor, mean, values, weights) of a stddev
+    estimator whose result is sqrt(B * dot((F - M)^2, W)); None when it has another shape."""
+    X = ctx.X
+    rth = X.return_term(h)
+    where_f = h
+    ps = [p for p in h.positional if p != "self"]
+    if len(ps) < 2:
+        return None
+    vals_p, w_p = ("param", h.qualname, ps[0]), ("param", h.qualname, ps[-1])
+    # not inlined (a large helper): look into the helper returning the components
+    it = rth
+    if it[0] == "item" and it[1][0] == "call":
+        hs = ctx.cg.resolve_fn(it[1][1], h)
+        if len(hs) == 1:
+            helper = hs[0]
+            hrt = X.return_term(helper)
+            if hrt[0] == "tuple" and isinstance(it[2], int) and -len(hrt[1]) <= it[2] < len(hrt[1]):
+                rth = hrt[1][it[2]]
+                where_f = helper
+                hp = [p for p in helper.positional if p != "self"]
+                vals_p, w_p = ("param", helper.qualname, hp[0]), ("param", helper.qualname, hp[-1])
+    sd = norm(rth)
+    fv = V("f", lambda x: x == vals_p or x == call("numpy.nan_to_num", vals_p))
+    ref_sd = ("binop", "**", mul(V("b"), call("numpy.dot", ("binop", "**", add(fv, neg(V("m"))), C(2)), w_p)), C(0.5))
+    m = match(sd, ref_sd)
+    if m is None:
+        return None
+    means = [s_ for s_ in subterms(m["m"]) if s_[0] == "call" and s_[1] in (("global", "numpy.dot"), ("global", "numpy.sum"))]
+    mean = means[0] if means else m["m"]
+    # the deviation is taken from the mean broadcast over the realizations: M is mean or mean[..., newaxis]
+    core = m["m"]
+    while core[0] == "sub":
+        core = core[1]
+    if core != mean:
+        return None
+    return where_f, m["b"], mean, m["f"], w_p
 
 
 # --------------------------------------------------------------------- C01.6
